@@ -67,6 +67,7 @@ func (raftDiscard) Panicf(format string, v ...interface{})   { panic(fmt.Sprintf
 // Options of one simulated namespace.
 type Options struct {
 	Engine      string // "mem", "pebble", "rocksdb"
+	StaleCreate int    // >0: before the namespace is created, a creation with this partition count fails (unknown engine type)
 	ExpPolicy   string // common.WaitCompactExpirationPolicy etc. ("" = wait_compact)
 	DataVersion string // "" = value_header_v1
 	Namespace   string // base name, default "default"
@@ -273,6 +274,24 @@ func New(o Options) (*Sim, error) {
 		return nil, err
 	}
 	s.Srv = srv
+	if o.StaleCreate > 0 {
+		// an earlier creation of the same namespace name with another partition count that
+		// failed while opening its store (unknown engine type): nothing of it may survive
+		nsConf := node.NewNSConfig()
+		nsConf.Name = common.GetNsDesp(o.Namespace, 0)
+		nsConf.BaseName = o.Namespace
+		nsConf.EngType = "verif-no-such-engine"
+		nsConf.PartitionNum = o.StaleCreate
+		nsConf.Replicator = 1
+		nsConf.RaftGroupConf.GroupID = uint64(1000)
+		nsConf.RaftGroupConf.SeedNodes = append(nsConf.RaftGroupConf.SeedNodes, node.ReplicaInfo{NodeID: 1, ReplicaID: 1, RaftAddr: conf.LocalRaftAddr})
+		nsConf.ExpirationPolicy = o.ExpPolicy
+		nsConf.DataVersion = o.DataVersion
+		if _, err := srv.InitKVNamespace(1, nsConf, false); err == nil {
+			s.cleanup()
+			return nil, fmt.Errorf("the namespace with an unknown engine type was created")
+		}
+	}
 	for pid := 0; pid < o.Partitions; pid++ {
 		if o.Hosted != nil {
 			found := false
